@@ -17,6 +17,7 @@ LEVEL = dict(
                   "load_filtered's user-supplied filter_func is a pure function",
                   "log:: macros do not feed the document"],
 )
+LEVEL["rule_text"] += '; what the parallel phase hands to an order-insensitive consumer is the object id alone (nothing a worker read next to it)'
 
 EFFECT = [
     (re.compile(r"sync::(Mutex|RwLock)::<.*>::(lock|write|read|try_lock|get_mut)$"), "lock"),
@@ -265,7 +266,16 @@ def check_consumer(ctx, F, parent, acc, cfn):
         # commutative table: the loop over the accumulator may call only the reviewed callee
         com = COMMUTATIVE.get(acc)
         loop_calls = consumer_calls(F, parent, it)
-        if com and loop_calls == {com[0]}:
+        # the reviewed argument is about calls that are given a KEY and take everything else from the merged document: an element
+        # that carries anything a worker read (a position, a length) hands a worker's view, in completion order, to the consumer
+        accl = [l for l, nm in parent.names.items() if nm == acc]
+        elem_ok = bool(accl) and re.search(r"Mutex<std::vec::Vec<\(u32, u16\)>>$", parent.lty(accl[0])) is not None
+        if com and loop_calls == {com[0]} and not elem_ok:
+            ctx.finding(R, "accumulator-carries-key-only|%s|%s" % (pfn, acc),
+                        "accumulator %s (%s) carries more than the object id: what a worker read next to the id reaches the consumer in thread-completion order, "
+                        "and with two entries for one id the survivor is finished with the other copy's data (the reviewed commutativity argument is about ids alone)"
+                        % (acc, parent.lty(accl[0]) if accl else "?"), parent.where(it.ln))
+        elif com and loop_calls == {com[0]}:
             ctx.ob(R, "accumulator|%s|%s" % (pfn, acc), True, "TABLED commutative consumer %s: %s" % (com[0], com[1]), parent.where(it.ln))
         else:
             ctx.finding(R, "accumulator|%s|%s" % (pfn, acc),
